@@ -10,6 +10,7 @@ CONSTANTS
   MaxKills = 2
   MaxInterrupts = 1
   RepairPartial = FALSE
+  TailSave = TRUE
   Planned = FALSE
 INIT Init
 NEXT Next
